@@ -300,12 +300,16 @@ SCHEMA_SECTS = {
     1: ["main", "two", "nobase", "a", "b", "c", "zz", "shadowed", "*"],
     2: ["main", "wo", "bad", "a", "b", "zz", "*"],
     3: ["main", "two", "nobase", "a", "b", "zz"],
+    4: ["main", "fixed", "a", "b", "zz", "main", "main"],
+    5: ["a", "b", "main", "fixed", "zz"],
 }
 SCHEMA_KEYS = {
     0: {"main": ["i", "u", "b", "s", "f", "t", "d", "l", "ro", "roa", "nr", "nrs", "ns", "ng", "a.b-c_d*", ""],
         "two": ["s2", "i2"], "baddef": ["x"], "": ["k"]},
     1: {"main": ["i", "s", "abs"], "two": ["s2", "t", "nr"], "nobase": ["x"]},
     2: {"main": ["i", "s"]},
+    4: {"fixed": ["i", "s"], "main": ["k1", "k2", "xk"]},
+    5: {},
 }
 KEY_TYPE = {"i": INT_VALS, "u": INT_VALS, "b": INT_VALS, "t": TIME_VALS, "d": TIME_VALS, "l": LOOKUP_VALS,
             "f": FILE_VALS, "ro": INT_VALS, "roa": INT_VALS, "nr": INT_VALS, "ng": INT_VALS, "i2": INT_VALS,
@@ -344,7 +348,7 @@ def cf_text(rng, sid, names):
     out = bytearray()
     sect = None
     n = rng.below(10)
-    if rng.chance(5, 6):
+    if rng.chance(5, 6) and not (sid in (4, 5) and rng.chance(1, 3)):
         out += b"[main]" + rng.choice(EOLS)
         sect = "main"
     for _ in range(n):
@@ -375,7 +379,7 @@ def cf_text(rng, sid, names):
 
 
 def cf_case(rng):
-    sid = rng.below(4)
+    sid = rng.below(6)
     ops = ["schema %d" % sid]
     if rng.chance(1, 3):
         ops.append("loaded 1")
@@ -677,7 +681,7 @@ def run(ck):
                       "values, trailing whitespace, several sections on a line, %include with/without blank, nested includes "
                       "to depth 12, self-includes, missing files), the same with 1-3 byte mutations (incl. NUL), and raw bytes; "
                       "handler refusing the n-th event; failing-include cases: chains of depth 1..10 whose innermost file is missing / has a syntax error / includes itself / loops / is fine, parsed with the handler refusing at EVERY event index k, and the same through cf_load_file (missing main section, unknown key/section inside an include) — `live` after each call must be 0.  cf cases: histories of schema/loaded/home/file/load/set/get/dump over "
-                      "four schemas (absolute, relative with base_lookup, dynamic set_key, relative with NULL base) with typed "
+                      "six schemas (absolute, relative with base_lookup, dynamic set_key, relative with NULL base, MAIN section dynamic, `*` wildcard as first section) with typed "
                       "values at boundaries; filename cases: `~`, `~/rest`, `~user[/rest]`, unknown user, with $HOME short / "
                       "long (200..4096 bytes) / empty / unset and expansion lengths around 255/256, 1023/1024/1025, 4095/4096, "
                       "9000, through cf_set and through a long line of a loaded file; `setself` feeds the pointer cf_get returned (+offset) back into cf_set, so the new "
